@@ -3,27 +3,58 @@
 
 package nbio
 
+import "sync/atomic"
+
 // VerifNewConn builds a Conn around an arbitrary fd (used with the vsys shim).
 func VerifNewConn(fd int, typ ConnType) *Conn { return &Conn{fd: fd, typ: typ} }
 
+// VerifConnState is a read-only snapshot of the write-path fields.
 type VerifConnState struct {
-	Left     int
-	Items    []int
-	IsWAdded bool
-	Closed   bool
+	Left       int
+	Items      []int // remaining bytes per queued item; negative = file item (remain)
+	ItemLens   []int // len(*buf) per buffer item (0 for file items)
+	IsWAdded   bool
+	Closed     bool
+	ReadEvents int32
+	RTimer     bool
+	WTimer     bool
+	Jobs       int
 }
 
 func (c *Conn) VerifState() VerifConnState {
 	c.mux.Lock()
 	defer c.mux.Unlock()
-	st := VerifConnState{Left: c.left, IsWAdded: c.isWAdded, Closed: c.closed}
+	st := VerifConnState{Left: c.left, IsWAdded: c.isWAdded, Closed: c.closed,
+		ReadEvents: atomic.LoadInt32(&c.readEvents), RTimer: c.rTimer != nil, WTimer: c.wTimer != nil,
+		Jobs: len(c.jobList)}
 	for _, t := range c.writeList {
 		if t.buf != nil {
 			st.Items = append(st.Items, len(*t.buf)-int(t.offset))
+			st.ItemLens = append(st.ItemLens, len(*t.buf))
 		} else {
 			st.Items = append(st.Items, -int(t.remain))
+			st.ItemLens = append(st.ItemLens, 0)
 		}
 	}
 	return st
 }
+
+// VerifEpfd returns the epoll descriptor of I/O poller i.
 func (g *Engine) VerifEpfd(i int) int { return g.pollers[i].epfd }
+
+// VerifListenerEpfd returns the epoll descriptor of listener poller i.
+func (g *Engine) VerifListenerEpfd(i int) int { return g.listeners[i].epfd }
+
+// VerifNPollers returns the number of I/O pollers.
+func (g *Engine) VerifNPollers() int { return len(g.pollers) }
+
+// VerifConnAt returns the conn stored in the fd table (nil if none).
+func (g *Engine) VerifConnAt(fd int) *Conn {
+	if fd < 0 || fd >= len(g.connsUnix) {
+		return nil
+	}
+	return g.connsUnix[fd]
+}
+
+// VerifFd returns the descriptor of a conn.
+func (c *Conn) VerifFd() int { return c.fd }
